@@ -1,6 +1,8 @@
 package types
 
 import (
+	"fmt"
+
 	sdk "github.com/cosmos/cosmos-sdk/types"
 )
 
@@ -20,9 +22,16 @@ func DefaultParams() Params {
 
 // Validate validates the set of params
 func (p Params) Validate() error {
-	for _, denom := range p.AllowedDenoms {
+	for i, denom := range p.AllowedDenoms {
 		if err := sdk.ValidateDenom(denom); err != nil {
 			return err
+		}
+
+		// the staked power sums over this list: a denom listed twice would count twice
+		for _, prev := range p.AllowedDenoms[:i] {
+			if prev == denom {
+				return fmt.Errorf("duplicate allowed denom: %s", denom)
+			}
 		}
 	}
 
